@@ -199,6 +199,17 @@ def h1_h2_h5_influence(ck):
                "depends on %s only" % sorted(flds))
         ck.sample({"rule": "H1", "xor_site_line": line, "key": show(kt), "table": table, "state_accessors": [a.split("::")[-1] for a in accs],
                    "state_fields": sorted(flds)})
+        # H5.index_form: the index selecting the key is built from loop elements and accessor results through conversions only;
+        # an index assembled by arithmetic (shifts, ors, multiplications) would need an injectivity proof that is not attempted here
+        data_cl0 = deps.closure(kl, [], control=False)
+        arith = []
+        for l in sorted(data_cl0):
+            for d in tb.d.defs.get(l, []):
+                if d[0] == "assign" and "binop" in d[3] and d[3]["binop"] not in ("Eq", "Ne", "Lt", "Le", "Gt", "Ge"):
+                    arith.append("%s@bb%d" % (d[3]["binop"], d[1]))
+        ck.req(not arith, "H5.index_form", "xor:%s" % table, h.where(line),
+               "the index selecting the key from table %s is assembled by arithmetic (%s): distinct component values may select the same key "
+               "(injectivity of the packing is not established)" % (table, ", ".join(arith[:4])), "index built by conversions only")
         # H5: loop-distinct keys
         for loop, elems, be in loops:
             if bb in loop:
